@@ -136,7 +136,7 @@ def LeafSupS : LeafS → Prop
   | .lapp s => SrcLit s
   | .lpre s => SrcLit s
   | .aapp s => SrcLit s
-  | .set (.lit x) => x.isBoxed = false
+  | .set (.lit x) => LitOk x
   | .clear => True
   | .touch _ => True
   | .lrem _ => True
@@ -165,12 +165,29 @@ theorem leaf_step (ds : DblSem) (rd : Nat → Cell) {h vars e g c} (hd : Held h 
   | set e =>
     cases e with
     | lit x =>
-      have hx : x.isBoxed = false := hsup
+      have hl : LitOk x := hsup
       simp only [LeafS.eval, ValS.eval, Leaf.apply, Option.some.injEq] at hy
       subst hy
-      obtain ⟨h', r, st⟩ := leaf_setScalar hd x hx f (by omega)
-      refine ⟨h', .inl x, g, ?_, st.mono 2 (by omega)⟩
-      simp only [leafOp, hx, Bool.false_eq_true, if_false]; exact r
+      have scalar : x.isBoxed = false → ∃ h' c' g', leafOp f ds rd h c (.set (.lit x)) = some (h', c') ∧
+          CellStep h vars e g c x 2 h' c' g' := by
+        intro hx
+        obtain ⟨h', r, st⟩ := leaf_setScalar hd x hx f (by omega)
+        refine ⟨h', .inl x, g, ?_, st.mono 2 (by omega)⟩
+        simp only [leafOp, hx, Bool.false_eq_true, if_false]; exact r
+      cases x with
+      | str t =>
+        obtain ⟨h', c', g', r, st⟩ := leaf_setStr hd t f hf
+        exact ⟨h', c', g', by simp only [leafOp, Val.isBoxed, if_true]; exact r, st⟩
+      | map m => exact absurd hl (by simp [LitOk])
+      | list l => exact absurd hl (by simp [LitOk])
+      | array l => exact absurd hl (by simp [LitOk])
+      | null => exact scalar rfl
+      | bool b => exact scalar rfl
+      | dbl d => exact scalar rfl
+      | int n => exact scalar rfl
+      | uint n => exact scalar rfl
+      | int64 n => exact scalar rfl
+      | uint64 n => exact scalar rfl
     | list l => exact absurd hsup (by simp [LeafSupS])
     | array l => exact absurd hsup (by simp [LeafSupS])
     | map m => exact absurd hsup (by simp [LeafSupS])
